@@ -184,14 +184,26 @@ def wide_lifetimes(prop, take):
 def chain_extras(*fs):
     def run(tier, mi):
         viols, cov = [], {}
+        failed = None
         for f in fs:
-            v, c = f(tier, mi)
+            # a part that cannot decide (machinery error, e.g. the code under test keeps process-wide state
+            # that makes schedules irreproducible) does not silence a counterexample another part found:
+            # one real counterexample is a verdict; without one the machinery error stands
+            try:
+                v, c = f(tier, mi)
+            except MachineryError as e:
+                failed = failed or e
+                continue
             viols += v
             for k, x in c.items():
                 if k in ("states", "transitions") and isinstance(x, int):
                     cov[k] = cov.get(k, 0) + x
                 else:
                     cov[k] = x
+        if failed is not None:
+            if not viols:
+                raise failed
+            cov["part_without_verdict"] = str(failed)[:300]
         return viols, cov
     return run
 
@@ -225,8 +237,9 @@ def check_c03(tier):
                        conform=(["--fs"], 3, False),
                        assumptions_extra=["executable mappings are enumerated from /proc/self/maps; [vvar]/[vsyscall] are skipped",
                                           "arena functions are packed at 16-byte pitch around the targets; a thunk target and an 8-byte-pitch pair are included",
+                                          "wide part: up to 56 (quick) / 500 (thorough) installations alive in one lifetime, never-faked neighbours called and compared; a process death there is a write or a jump outside what the injector owns and is counted",
                                           "concurrent part: a bystander thread (no guard) calls a never-faked function on the same code page as a function that another thread fakes and un-fakes, under every schedule of the crate's OS calls (E2)"],
-                       extra=c03_bystander)
+                       extra=chain_extras(c03_bystander, wide_lifetimes("C03", ("C03", "*"))))
 
 
 def c12_cycles(tier, mi):
@@ -475,16 +488,49 @@ def c05_refusals(tier, mi):
     return viols, cov
 
 
+def c05_unwound(tier, mi):
+    """The full install alphabet of C02 (repeated targets, every install kind, the `times` expectation that
+    is unmet at scope exit, user panics): whatever is wrong once a lifetime has ended by a panic - a target
+    not restored, a stale fake still answering, a process death while or after the injector goes away - is a
+    failure of restoration on the unwinding path, which is C05's claim (C02 judges the same histories for
+    restoration in general)."""
+    depth = 3 if tier == "quick" else 4
+    args = ["hist", "--depth", str(depth), "--per-child", "256", "--fs"]
+    outs = run_engine_sharded(bin_path("e3"), args, NCPU, timeout=2400)
+    m = _merge_hist(outs)
+    viols = []
+    n_panic_hist = 0
+    for v in sorted(m["violations"], key=lambda v: (v["step"] & 0xFFF, len(v["history"]))):
+        if v["prop"] == "MACHINERY":
+            raise MachineryError(f"{v['key']}: {v['what']}")
+        step = v["step"] & 0xFFF
+        ended_by_panic = any(o == "P" or "FakeTimesUnmet" in o for o in v["history"][:max(step, 1)])
+        if not ended_by_panic:
+            continue
+        if v["prop"] in ("C05", "C02") or (v["prop"] == "*" and (v["step"] >> 12) >= 1):
+            viols.append({"key": "unwound-lifetime:" + v["key"], "what": v["what"] + " (a lifetime of this history ended by a panic before that point)", "engine": "e3", "args": ["hist", "--fs"], "case": {"history": v["history"], "step": step}})
+    cov = {"states": m["prefixes"], "transitions": m["steps"], "unwound_histories": m["histories"], "unwound_alphabet": m["alphabet"]}
+    return viols, cov
+
+
 def c05_extra(tier, mi):
     v1, c1, a1 = c05_concurrent(tier, mi)
     v2, c2 = c05_refusals(tier, mi)
+    v3, c3 = c05_unwound(tier, mi)
+    v2 = v2 + v3
+    c2 = dict(c2)
+    for k in ("states", "transitions"):
+        c2[k] = c2.get(k, 0) + c3.get(k, 0)
     cov = dict(c1)
     for k in ("states", "transitions"):
         cov[k] = c1.get(k, 0) + c2.get(k, 0)
     cov["samples"] = c1.get("samples", [])[:1] + c2.get("samples", [])[:1]
     cov["refusal_histories"] = c2["refusal_histories"]
     cov["refusal_alphabet"] = c2["refusal_alphabet"]
-    return v1 + v2, cov, a1 + ["refused installations (signature mismatch, null pointer, boolean on a non-bool function, no memory for the trampoline, mprotect failure) are injected at every position of every install history up to the depth; an installation that fails in mprotect abandons its trampoline page, which no given property forbids"]
+    cov["unwound_histories"] = c3["unwound_histories"]
+    cov["unwound_alphabet"] = c3["unwound_alphabet"]
+    return v1 + v2, cov, a1 + ["refused installations (signature mismatch, null pointer, boolean on a non-bool function, no memory for the trampoline, mprotect failure) are injected at every position of every install history up to the depth; an installation that fails in mprotect abandons its trampoline page, which no given property forbids",
+                                "the complete install alphabet of C02 (repeated targets, all install kinds, an expectation unmet at scope exit, user panics) to depth 3 (quick) / 4: anything not restored, or a process death, after a lifetime that ended by a panic is counted here as well as in C02"]
 
 
 def check_c05(tier):
